@@ -356,6 +356,73 @@ def run_import(x):
     return x
 
 
+# ------------------------------------------------------------------------------- C12: name map validation
+MV = {"tm": ["ok", "none", "bad", "absent"], "idm": ["ok", "absent"],
+      "pos": ["absent", "yx", "y", "empty", "none", "str", "ybad"], "leg": ["absent", "yx", "x"],
+      "cu": ["absent", "ok", "bad", "none", "empty"], "ax": ["absent", "two", "three", "str"],
+      "seg": [False, True], "em": ["nomap", "empty", "iou", "collide"]}
+
+
+def gen_mapvalid(args):
+    keys = list(MV)
+    for vals in itertools.product(*[MV[k] for k in keys]):
+        yield {"m": dict(zip(keys, vals))}
+
+
+def mv_maps(m):
+    nm = {"parent_id": "parent_id"}
+    v = {"ok": "t", "none": None, "bad": "nocol"}
+    if m["tm"] != "absent":
+        nm["time"] = v[m["tm"]]
+    if m["idm"] == "ok":
+        nm["id"] = "id"
+    pv = {"yx": ["y", "x"], "y": ["y"], "empty": [], "none": None, "str": "y", "ybad": ["y", "nocol"]}
+    if m["pos"] != "absent":
+        nm["pos"] = pv[m["pos"]]
+    if m["leg"] == "yx":
+        nm["y"], nm["x"] = "y", "x"
+    elif m["leg"] == "x":
+        nm["x"] = "x"
+    cv = {"ok": "c", "bad": "nocol", "none": None, "empty": []}
+    if m["cu"] != "absent":
+        nm["custom"] = cv[m["cu"]]
+    av = {"two": ["a", "b"], "three": ["a", "b", "d"], "str": "a"}
+    if m["ax"] != "absent":
+        nm["ellipse_axis_radii"] = av[m["ax"]]
+    em = {"nomap": None, "empty": {}, "iou": {"iou": "w"}, "collide": {"custom": "w"}}[m["em"]]
+    return nm, em
+
+
+def run_mapvalid(x):
+    import pandas as pd
+    from funtracks.import_export.csv._import import CSVTracksBuilder, tracks_from_df
+    m = x["m"]
+    df = pd.DataFrame({"t": [0, 1], "id": [1, 2], "parent_id": [-1, 1], "y": [0.0, 0.0], "x": [0.0, 1.0], "c": [5, 6],
+                       "a": [1.0, 1.0], "b": [2.0, 2.0], "d": [3.0, 3.0]})
+    nm, em = mv_maps(m)
+    b = CSVTracksBuilder()
+    b.read_header(df)
+    b.node_name_map = dict(nm)
+    b.edge_name_map = None if em is None else dict(em)
+    try:
+        b.validate_name_map(has_segmentation=m["seg"])
+        x["err"] = "ok"
+    except Exception as e:  # noqa: BLE001
+        x["err"] = exc_name(e)
+    x["keys"] = sorted(b.node_name_map)
+    # end to end (no edge map argument in this entry point): the same node map through tracks_from_df
+    x["e2e"] = ""
+    if m["em"] == "nomap" and m["ax"] == "absent" and m["pos"] != "str":
+        seg = np.zeros((2, 2, 2), dtype=np.uint16)
+        seg[0, 0, 0], seg[1, 0, 1] = 1, 2
+        try:
+            tracks_from_df(df, segmentation=seg if m["seg"] else None, node_name_map=dict(nm))
+            x["e2e"] = "ok"
+        except Exception as e:  # noqa: BLE001
+            x["e2e"] = exc_name(e)
+    return x
+
+
 def gen_import_geff(args):
     names = ["a", "b", "c"]
     for n in range(0, 4):
@@ -416,6 +483,7 @@ def run_import_geff(x):
 PARTS = {
     "import_geff": (gen_import_geff, run_import_geff),
     "import_df": (gen_import, run_import),
+    "mapvalid": (gen_mapvalid, run_mapvalid),
     "relabel": (gen_relabel, run_relabel),
     "namemap": (gen_namemap, run_namemap),
     "cand_points": (gen_cand_points, run_cand_points),
